@@ -859,6 +859,18 @@ pub fn gen_history(rng: &mut Rng, sc: &mut Scenario) {
             }
         }
     }
+    // the same address value twice: at construction and as the first payload(s)
+    if rng.chance(1, 12) {
+        let (fam, fill) = match &ctor {
+            Ctor::WithAddresses { fam, fill, .. } if *fam >= 1 && *fam <= 3 => (*fam, fill.clone()),
+            _ => (rng.range(1, 3) as u8, Fill { len: 0, seed: rng.next_u64() | 7 }),
+        };
+        let p = Payload::Addr(fam, fill);
+        ops.insert(0, BOp::Write(p.clone()));
+        if matches!(ctor, Ctor::New { .. }) || rng.chance(1, 3) {
+            ops.insert(1, BOp::Write(p));
+        }
+    }
     sc.ctor = Some(ctor);
     sc.ops = ops;
 }
